@@ -10,10 +10,14 @@ Genuine defects found on the unchanged tree (each reproduced standalone; fixes i
   proto[rsv1-ctl]      ... a PING/PONG/CLOSE carrying RSV1 is accepted (and the ping ponged) (RFC 7692 6)
   proto[len-nonmin]    a data frame whose length is not minimally encoded (5 bytes in the 16-/64-bit form) is accepted (RFC 6455 5.2)
   proto[len-msb]       a 64-bit length with the most significant bit set fails with ErrReadLimit but no Close frame is sent (RFC 6455 5.2)
+  (the five above are repaired in /repo by e291a3d5)
+  toobig[len-max63]:close-frame   read limit set, a fragment + a CONTINUATION announcing 2^63-1 bytes (msb clear): the per-message
+                       counter overflows, the overflow guard returns ErrReadLimit WITHOUT the 1009 Close the limit path sends
+                       (first position does send it); one-line repair in spec/WsReader/conn.go.fix.diff
 
 Mutation testing (FRAMEWORK rule 3): scratch worktree /tmp/wsreader-wt = HEAD + the fixes of the defects above (baseline
 green, exit 0), one hand mutation of internal/websocket/conn.go at a time, `VERIF_REPO=/tmp/wsreader-wt ./check C29`.
-All 18 were caught (exit 1 + VIOLATION):
+All 19 were caught (exit 1 + VIOLATION):
   M1  control frame length check 125 -> 126                     M10 RSV2 check dropped
   M2  "continuation after FIN" check dropped                    M11 "data before FIN" (new message inside a fragmented one) dropped
   M3  unmasked frames accepted by the server                    M12 close code 1005 accepted in a received Close
@@ -23,6 +27,8 @@ All 18 were caught (exit 1 + VIOLATION):
   M7  reserved-opcode check dropped                             M16 decompressed limit not applied
   M8  protocol error answered with Close 1008 instead of 1002   M17 no Close 1009 when the read limit is exceeded
   M9  pong does not echo the ping payload                       M18 received Close not answered
+  M19 overflow guard `if c.readLength < 0` removed (counter wraps, read limit bypassed by a 2^63-1 continuation frame):
+      signature toobig[len-max63]:kind (needs the "max63" length class; was missed before it existed)
 """
 import json
 import os
@@ -99,7 +105,7 @@ def c29(c):
                      % ('Quick' if quick else 'Thorough', cfg))
     c.cov['samples'] = res['samples']
     c.assumptions += [
-        'abstract alphabet: one representative per class (lengths 0/5/125/126/65536, RSV2/RSV3 rotated, reserved opcodes rotated, '
+        'abstract alphabet: one representative per class (lengths 0/5/125/126/65536 and 2^63-1 announced, RSV2/RSV3 rotated, reserved opcodes rotated, '
         'close codes of TestCodes); sequences of <= 3 (quick) / <= 4 (thorough) frames',
         'UTF-8 validity of text payloads is not part of the statement (payloads are ASCII)',
         'outcomes the RFCs leave open are compared as a set (res.alt) or by prefix only (kind "unspec"): truncated violating frame, '
